@@ -74,6 +74,26 @@ Theorem C14_get_reader_never_prefix : forall chunk maxsize, 0 < chunk ->
 Proof. exact get_reader_whole. Qed.
 Print Assumptions C14_get_reader_never_prefix.
 
+(* Faulty bucket: the body of every underlying read of an operation may end after any number
+   of bytes [cut] (short read, then EOF). A fetch whose body is shorter than its buffer fails
+   and stores nothing; a fetch that succeeds is the healthy fetch; so a GetRange over the
+   faulty bucket answers the underlying object's bytes or an ERROR - never other bytes - and
+   the cache stays truthful, whatever was cached before and whatever the cache loses. *)
+Theorem C14_short_fetch_fails : forall cut obj S lastOff lastLen known ms me h st,
+  blen (cut_body cut (under_get_range obj ms (me - ms)))
+  < (if buf_full_cond lastOff me then buf_size_full ms me else buf_size_last ms me S lastLen) ->
+  fetch_one_f cut obj S lastOff lastLen known (ms, me) h st = None.
+Proof. exact fetch_one_f_short. Qed.
+Print Assumptions C14_short_fetch_fails.
+
+Theorem C14_faulty_get_range : forall cut g w listing c hits name off len,
+  0 <= cut -> 0 < c_S g -> 0 <= off -> 0 < len -> cache_ok w listing c ->
+  (fst (fst (fst (get_range_f cut g w c hits name off len))) = reference w (OGetRange name off len) []
+   \/ fst (fst (fst (get_range_f cut g w c hits name off len))) = RErr)
+  /\ cache_ok w listing (snd (get_range_f cut g w c hits name off len)).
+Proof. exact get_range_f_ok. Qed.
+Print Assumptions C14_faulty_get_range.
+
 (* Histories: any sequence of reads, each with its own arbitrary loss pattern, starting
    from any truthful cache (in particular the empty one): every answer equals the
    underlying bucket's. *)
@@ -123,4 +143,11 @@ Example C14_get_reader_nonvacuous :
   /\ get_reader 13 [10; 11; 12; 13; 14; 15; 16; 17; 18; 19; 20; 21]%N 4 12 (Some [])
      = Some [10; 11; 12; 13; 14; 15; 16; 17; 18; 19; 20; 21]%N
   /\ res_of (step {| c_S := 4; c_M := 0; c_maxsize := 5 |} ex_w [] (OGet 0 4) [] []) = reference ex_w (OGet 0 4) [].
+Proof. repeat split; vm_compute; reflexivity. Qed.
+
+(* body cut after 5 of 12 requested bytes: an error and no subrange is stored; cut at 100: healthy *)
+Example C14_faulty_nonvacuous :
+  fst (fst (fst (get_range_f 5 ex_g ex_w [] [] 0 0 12))) = RErr
+  /\ snd (get_range_f 5 ex_g ex_w [] [] 0 0 12) = [(KAttr 0, VSize 12)]
+  /\ get_range_f 100 ex_g ex_w [] [] 0 0 12 = get_range ex_g ex_w [] [] 0 0 12.
 Proof. repeat split; vm_compute; reflexivity. Qed.
